@@ -19,8 +19,8 @@ import regen_c18
 PID = "C18"
 WORKDIR = os.path.join(vlib.WORK, "C18", "run")
 THEOREMS = ["startup_total", "startup_total_data", "damaged_is_replaced", "stale_never_trusted", "crash_prefix_sound",
-            "lock_excludes", "concurrent_starts_agree", "concurrent_starts_progress", "solo_schedule_is_sequential",
-            "lock_is_necessary", "data_concurrent_answers_agree", "data_concurrent_except_known"]
+            "lock_excludes", "concurrent_starts_agree", "concurrent_starts_progress",
+            "lock_is_necessary", "make_cache_rewrites_damaged", "data_concurrent_answers_agree", "data_concurrent_except_known"]
 # exactly one of each pair compiles: the first while the recorded defect is in the source, the second once it is repaired
 ALTERNATIVES = [("data_concurrent_refuted", "data_concurrent_starts_agree", "C18-F2"),
                 ("disabled_reference_refuted", "cache_transparent", "C18-F1")]
@@ -87,11 +87,11 @@ def prefix_lengths(tier, rng, size, bounds):
     ops = bounds["ops_sample"]
     s = {0, 1, 2, 3, 10, 11, 12, size - 2, size - 1}
     for f in frames:
-        s |= {f - 1, f, f + 1, f + 8, f + 9, f + 10}
-    pick = ops if tier == "thorough" else ops[:: max(1, len(ops) // 8)]
+        s |= {f - 1, f, f + 1, f + 8, f + 9, f + 10} if tier == "thorough" else {f - 1, f, f + 9}
+    pick = ops if tier == "thorough" else ops[:: max(1, len(ops) // 4)]
     for o in pick:
         s |= {o, o + 1} if tier == "thorough" else {o}
-    for _ in range(60 if tier == "thorough" else 8):
+    for _ in range(60 if tier == "thorough" else 4):
         s.add(rng.randrange(0, size))
     return sorted(x for x in s if 0 <= x < size)
 
@@ -121,31 +121,35 @@ def gen_cases(tier, rng, ref, classes):
     # A: contents of the quick-info cache
     for i, k in enumerate(prefix_lengths(tier, rng, ref["sizes"]["quick"], ref["boundaries"]["quick"])):
         add("quick-info cache: truncated prefix", {"kind": "prefix", "len": k}, [valid, missing][i % 2], keys=[i % 2],
-            then_start=(i % 4 == 0))
+            then_start=(i % 6 == 0))
     for i, n in enumerate(named):
         add("quick-info cache: empty / wrong type / hollow / stale", {"kind": "named", "name": n}, [missing, valid][i % 2],
             keys=[0], then_start=True)
     add("quick-info cache: empty / wrong type / hollow / stale", valid, valid, keys=[0])
     add("quick-info cache: empty / wrong type / hollow / stale", missing, missing, keys=[1], then_start=True)
     for i, e in enumerate(exception_names(tier, classes, rng)):
+        if tier != "thorough" and i % 2 == 1 and e not in ("EOFError", "AssertionError", "AttributeError"):
+            continue
         add("quick-info cache: pickle raising a chosen exception class", {"kind": "named", "name": "raise:" + e},
-            [valid, missing][i % 2], keys=[0])
+            [valid, missing][i % 4 == 0], keys=[0])
     for i in range(6 if tier == "thorough" else 2):
         add("quick-info cache: random bytes", {"kind": "bytes", "hex": bytes(rng.getrandbits(8) for _ in range(rng.choice([1, 7, 64, 300]))).hex()},
             valid, keys=[0])
     # B: contents of the data cache
     for i, k in enumerate(prefix_lengths(tier, rng, ref["sizes"]["data"], ref["boundaries"]["data"])):
         add("data cache: truncated prefix", [valid, missing][i % 3 == 2], {"kind": "prefix", "len": k}, keys=[i % 2],
-            then_start=(i % 4 == 0), then_key=(i // 4) % 2)
+            then_start=(i % 6 == 0), then_key=(i // 6) % 2)
     for i, n in enumerate(named):
-        for key in (0, 1):
+        for key in ((0, 1) if tier == "thorough" else (i % 2,)):
             add("data cache: empty / wrong type / hollow / stale", valid, {"kind": "named", "name": n}, keys=[key], then_start=True,
                 then_key=0)
     for key in (0, 1, 2):
         add("data cache: empty / wrong type / hollow / stale", valid, valid, keys=[key], then_start=True, then_key=key)
         add("data cache: empty / wrong type / hollow / stale", valid, {"kind": "valid", "variant": "two"}, keys=[key])
     for i, e in enumerate(exception_names(tier, classes, rng)):
-        add("data cache: pickle raising a chosen exception class", [valid, missing][i % 2], {"kind": "named", "name": "raise:" + e},
+        if tier != "thorough" and i % 2 == 0 and e not in ("EOFError", "AssertionError", "AttributeError"):
+            continue
+        add("data cache: pickle raising a chosen exception class", [valid, missing][i % 4 == 1], {"kind": "named", "name": "raise:" + e},
             keys=[i % 2])
     for i in range(6 if tier == "thorough" else 2):
         add("data cache: random bytes", valid, {"kind": "bytes", "hex": bytes(rng.getrandbits(8) for _ in range(rng.choice([1, 7, 64, 300]))).hex()},
@@ -162,7 +166,7 @@ def gen_cases(tier, rng, ref, classes):
     for r in range(rounds):
         for n in (2, 4, 8, 16):
             for j, (lab, q, d) in enumerate(damaged):
-                if tier != "thorough" and j >= 2 and not (n == 4 and j in (2, 3)) and not (n == 8 and j in (4, 5)):
+                if tier != "thorough" and j >= 2 and not (n == 2 and j in (2, 3)) and not (n == 4 and j in (4, 5)):
                     continue
                 add(f"{n} processes started together", q, d, n=n, nkeys=NKEYS, start_state=lab, then_start=True, then_key=r % NKEYS)
     return cases
@@ -363,10 +367,12 @@ def run(tier):
     tuples = sorted(set(tuples) | {old_tuple, ("OSError",), ("FileNotFoundError",), ("BaseException",)})
     pairs = [(e, list(t)) for t in tuples for e in sorted(classes)]
     exc_real = vlib.run_impl("c18_impl.py", {"mode": "exceptions", "pairs": pairs}, extra_env=env)["caught"]
+    vlib.log(f"  [t] proofs+reference+exceptions {round(time.time() - rep.t0, 1)} s")
     # (T2) starts
     cases = gen_cases(tier, rng, ref, classes)
     res = vlib.run_impl("c18_impl.py", {"mode": "starts", "work": WORKDIR, "cases": cases, "jobs": 8}, timeout=3000,
                         extra_env=env)["results"]
+    vlib.log(f"  [t] starts done {round(time.time() - rep.t0, 1)} s ({len(cases)} cases, {sum(c.get('n', 1) + (1 if c.get('then_start') else 0) for c in cases)} processes)")
     # replay of the recorded concurrent schedule on the real code (schedule injection, see c18_impl.install_schedule_hook)
     replay_case = {"id": "replay_f2", "stream": "schedule replay", "quick": {"kind": "valid"},
                    "data": {"kind": "named", "name": "empty"}, "keys": [0], "hook": "remove-after-exists:2",
@@ -388,7 +394,7 @@ def run(tier):
                                    "how": "tools/impl/c18_impl.py mode=starts with this case (SPSDK_CACHE_FOLDER = prepared folder)"})
     # (T2) model on the same cases
     exprs, meta = [], []
-    for c, r in zip(cases, res):
+    for c, r in zip(cases if table else [], res):
         n = c.get("n", 1)
         keys = c.get("keys") or [i % c.get("nkeys", 1) for i in range(n)]
         for which in ("quick", "data"):
@@ -402,12 +408,16 @@ def run(tier):
                 else:
                     exprs.append(f"run_case 2 [{vlib.coq_lit(cv)}; VInt {keys[0]}]")
                 meta.append((c, r, which, "single"))
+                # the same start as a schedule of the small-step system (one process running alone)
+                exprs.append(f"run_case {3 if which == 'quick' else 4} [{vlib.coq_lit(cv)}; VInt {keys[0] + 1}; VInt {NKEYS}; VInt 2; "
+                             f"({vlib.coq_lit(sched_value(solo(keys[0], 2, vlib.VL([vlib.VI(0)]))))})]")
+                meta.append(("solo", len(exprs) - 2, keys[0]))
             else:
                 sched = []
                 for i in range(n):
                     sched += solo(i, 2, vlib.VL([vlib.VI(0)]))
                 exprs.append(f"run_case {3 if which == 'quick' else 4} [{vlib.coq_lit(cv)}; VInt {n}; VInt {c.get('nkeys', 1)}; VInt 2; "
-                             f"{vlib.coq_lit(sched_value(sched))[6:]}]")
+                             f"({vlib.coq_lit(sched_value(sched))})]")
                 meta.append((c, r, which, "multi"))
     base = len(exprs)
     for (e, hs), real in zip(pairs, exc_real):
@@ -435,7 +445,7 @@ def run(tier):
         c0v = VL([VI(x) if not isinstance(x, list) else VL([VL([VI(a), VI(b)]) for a, b in x]) for x in c0])
         torn = VL([VI(4), VI(1), VI(2)]) if path == "quick" else VL([VI(5), VI(1), VL([VL([VI(0), VI(0)]), VL([VI(1), VI(0)]), VL([VI(2), VI(0)])])])
         s, killed = gen_schedule(rng, n, chunks, torn, exn_ids, crash)
-        exprs.append(f"run_case {3 if path == 'quick' else 4} [{vlib.coq_lit(c0v)}; VInt {n}; VInt {nk}; VInt {chunks}; {vlib.coq_lit(sched_value(s))[6:]}]")
+        exprs.append(f"run_case {3 if path == 'quick' else 4} [{vlib.coq_lit(c0v)}; VInt {n}; VInt {nk}; VInt {chunks}; ({vlib.coq_lit(sched_value(s))})]")
         meta.append(("sched", path, n, nk, killed, c0, s, chunks))
     ndis, nmodel = 0, 0
     sched_hits = {}
@@ -454,6 +464,14 @@ def run(tier):
                     if norm_outcome(v) != ("started", want):
                         ndis += 1
                         vlib.log(f"  disagreement: cache disabled: model {v}, real quick answers class {want}")
+                elif m[0] == "solo":
+                    seq = vals[m[1]]
+                    pcs = v[1][0][1]
+                    me = pcs[m[2]][1]
+                    so = ("started", me[1][1]) if me[0][1] == 0 else ("failed", me[2][1]) if me[0][1] == 1 else ("other",)
+                    if so != norm_outcome(seq[1][0]) or norm_content(v[1][1]) != norm_content(seq[1][1]) or v[1][2][1] != 1:
+                        ndis += 1
+                        vlib.log(f"  disagreement inside the model: sequential start {seq} vs solo schedule {v}")
                 elif m[0] == "sched":
                     _, path, n, nk, killed, c0, s, chunks = m
                     for sig, msg in judge_model_run(path, n, nk, killed, v, fnf):
@@ -473,6 +491,7 @@ def run(tier):
                      "schedule": [[a[0], a[1]] + ([a[2]] if a[1] == 9 else []) for a in s],
                      "actions": "0 Exists 1 Acquire 2 Timeout 3 ReadAll 4 Release 5 Remove 6 TruncOpen 7 WriteChunk 8 Close 9 Crash(exn)",
                      "how": "coq: Eval vm_compute in run_case 3|4 [...] (Model/CacheModel.v)"})
+    vlib.log(f"  [t] model done {round(time.time() - rep.t0, 1)} s")
     # thorough: every byte-length prefix of both files classified by the real unpickler
     if thorough or os.environ.get("C18_ALL_PREFIXES"):
         every_prefix(rep, ref, env, ident)
@@ -496,7 +515,7 @@ def run(tier):
     rep.add_stream("reference starts (cold, warm, per schema, cache disabled)", nref + NKEYS + 1, NKEYS + 2,
                    samples=[{"cold_answers": refans[0]}])
     rep.add_stream("except-tuple x exception-class table against the interpreter", nexc, nexc, exhaustive=True,
-                   samples=[{"class": pairs[0][0], "tuple": pairs[0][1]}])
+                   samples=[{"class": pr[0], "tuple": pr[1]} for pr in pairs[:1]])
     rep.add_stream("model schedules (interleaved solo runs with timeouts and kills)", nsched,
                    len({json.dumps(m[6]) for m in meta if m[0] == "sched"}),
                    samples=[{"path": m[1], "processes": m[2], "schedule_head": m[6][:12]} for m in meta if m[0] == "sched"][:2])
@@ -512,24 +531,35 @@ def compare(rep, c, r, which, mode, v, refans, ref_payload, empty_payload, ident
     keys = c.get("keys") or [i % c.get("nkeys", 1) for i in range(n)]
     dis = 0
 
+    def crash_routine(rr):
+        w = (rr.get("where") or "").split(":")
+        fn = w[1] if len(w) > 1 else ""
+        return "quick" if fn in ("_get_quick_info_db", "__new__") else "data" if fn in ("__init__", "make_cache") else ""
+
     def real_outcome(i):
+        """what the process shows about THIS cache: ('failed', class) when an exception escaped from its routine"""
         rr = r["results"][i]
         a = rr.get("answers", {})
         want = refans[keys[i]]
-        if which == "quick":
-            qa = {q: x for q, x in a.items() if q.startswith("q:")}
-            if any(isinstance(x, str) and x.startswith("EXC:") for x in qa.values()):
-                return ("failed", ident.get(rr.get("crash"), -1))
-            return ("started", 1 if all(want[q] == x for q, x in qa.items()) else 2)
-        x = a.get("c:schema")
-        if isinstance(x, str) and x.startswith("EXC:") or any(isinstance(y, str) and y.startswith("EXC:") for q, y in a.items() if q.startswith("f:")):
+        site = crash_routine(rr) if not rr.get("ok") else ""
+        if site == which:
             return ("failed", ident.get(rr.get("crash"), -1))
+        if which == "quick":
+            if site == "data" and "_get_quick_info_db" in (rr.get("stack") or []):
+                return None       # the quick-info routine was aborted from inside by the data cache routine it calls
+            qa = {q: x for q, x in a.items() if q.startswith("q:") and not (site == "data" and str(x).startswith("EXC:"))}
+            return ("started", 1 if all(want[q] == x for q, x in qa.items()) else 2)
+        if site == "quick":
+            return None           # the process never got to the data cache
+        x = a.get("c:schema")
         return ("started", 100 + keys[i] if x == want["c:schema"] else 0)
 
     fin = content_value(r["final"][which], which, ref_payload, empty_payload, ident)
     if mode == "single":
         mo, mc = norm_outcome(v[1][0]), norm_content(v[1][1])
         ro = real_outcome(0)
+        if ro is None:
+            return 0
         if mo != ro or fin is None or mc != norm_content(fin):
             dis += 1
             vlib.log(f"  disagreement [{which}] {c['quick'] if which == 'quick' else c['data']}: model {mo} {mc}; real {ro} {r['final'][which]}")
@@ -538,18 +568,20 @@ def compare(rep, c, r, which, mode, v, refans, ref_payload, empty_payload, ident
         for i, p in enumerate(pcs):
             t = [x[1] for x in p[1]]
             mo = ("started", t[1]) if t[0] == 0 else ("failed", t[2]) if t[0] == 1 else ("other", t[0])
-            if mo != real_outcome(i):
+            if real_outcome(i) is not None and mo != real_outcome(i):
                 dis += 1
                 vlib.log(f"  disagreement [{which}] process {i} of {n}: model {mo}; real {real_outcome(i)}")
         mc = norm_content(v[1][1])
         rc_ = norm_content(fin) if fin is not None else None
+        if any(real_outcome(i) is None for i in range(n)):
+            return dis
         # with unlocked removes of a damaged/stale data cache the surviving records depend on the schedule
         exact = which == "quick" or r["initial"]["data"]["state"] in ("missing",) or \
             (r["initial"]["data"]["state"] == "data" and r["initial"]["data"]["hash_ok"])
         if exact and mc != rc_:
             dis += 1
             vlib.log(f"  disagreement [{which}] final cache after {n} processes: model {mc}; real {rc_}")
-        if not exact and not (rc_ is not None and (rc_[0] == 0 or (rc_[0] == 5 and rc_[1] == 1 and set(rc_[2]) <= set(mc[2])))):
+        if not exact and not (rc_ is not None and (rc_ == mc or rc_[0] == 0 or (rc_[0] == 5 and rc_[1] == 1 and mc[0] == 5 and set(rc_[2]) <= set(mc[2])))):
             dis += 1
             vlib.log(f"  disagreement [{which}] final cache after {n} processes: model {mc}; real {rc_}")
     return dis
